@@ -284,6 +284,8 @@ def rule_pub(rep, S, R="C02.pub"):
                     o = size_of_obj(t)
                     if o is not None and o[0] == "ref" and o[1] in selfparams:
                         ok, why = True, "size of a string of the same capacity"
+                    elif t[0] == "bin" and t[1] == "-" and size_of_obj(t[2]) == ("this",) and "unsigned" in ir.wtype(node) + ir.qtype(node):
+                        ok, why = True, "the own size() less something: shrinks (as adjust_size(-k))"
                 cons = "set_size(%s)" % d.text(arg)[:50].replace("\n", " ")
                 if ok:
                     rep.holds(R, lab, cons, where=d.where(n), detail=why)
@@ -477,6 +479,111 @@ def run(tier):
     return rep
 
 
+def loop_table(fn):
+    """the loops of a function with what one iteration does to the local variables: the ids of the nodes that belong to an iteration,
+    the variables it changes (and whether they only move one way), and the pairs whose sum an iteration leaves unchanged"""
+    from .. import norm
+    out = []
+    for loop in [n for n in ir.walk_expr(fn) if n.get("kind") in ("ForStmt", "WhileStmt", "DoStmt")]:
+        raw = loop.get("inner", [])
+        init = raw[0] if loop.get("kind") == "ForStmt" and isinstance(raw[0], dict) and raw[0].get("kind") else None
+        init_ids = {x.get("id") for x in ir.walk_expr(init)} if init is not None else set()
+        ids = {x.get("id") for x in ir.walk_expr(loop)} - init_ids
+        ids.add(loop.get("id"))
+        cond, parts, body = norm.loop_parts(loop)
+        # effects embedded in the condition come first in an iteration
+        pre = []
+        if cond is not None:
+            for x in ir.walk_expr(cond):
+                if (x.get("kind") == "UnaryOperator" and x.get("opcode") in ("++", "--")) or \
+                        (x.get("kind") in ("BinaryOperator", "CompoundAssignOperator") and (x.get("opcode") or "").endswith("=") and x.get("opcode") not in ("==", "!=", "<=", ">=")):
+                    pre.append(x)
+        straight = [x for x in pre + parts if x.get("kind") not in ("IfStmt", "ForStmt", "WhileStmt", "SwitchStmt", "CompoundStmt", "DoStmt")]
+        step = norm.sym_step(straight)
+        top_ids = {x.get("id") for x in straight}
+        # locals of the body that hold the result of a traits find over (p, n): p <= result
+        find_from = {}
+        sites = {}
+        for x in ir.walk_expr(loop):
+            if x.get("id") in init_ids:
+                continue
+            k = x.get("kind")
+            if k == "VarDecl" and ir.ekids(x):
+                t = ir.sx(ir.ekids(x)[-1])
+                while t[0] == "cast":
+                    t = t[3]
+                if t[0] == "call" and t[1][0] == "ref" and t[1][1] == "find" and len(t) == 5 and t[2][0] == "ref":
+                    find_from[x.get("name")] = t[2][1]
+            tgt = None
+            op = None
+            if k == "UnaryOperator" and x.get("opcode") in ("++", "--"):
+                tgt, op = ir.strip(ir.ekids(x)[0]), x.get("opcode")
+            elif k in ("BinaryOperator", "CompoundAssignOperator") and (x.get("opcode") or "").endswith("=") and x.get("opcode") not in ("==", "!=", "<=", ">="):
+                tgt, op = ir.strip(ir.ekids(x)[0]), x.get("opcode")
+                t = ir.sx(ir.ekids(x)[1])
+                while t[0] == "cast":
+                    t = t[3]
+                if op == "=" and tgt.get("kind") == "DeclRefExpr" and t[0] == "call" and t[1][0] == "ref" and t[1][1] == "find" and len(t) == 5 and t[2][0] == "ref":
+                    find_from[(tgt.get("referencedDecl") or {}).get("name")] = t[2][1]
+            if tgt is not None and tgt.get("kind") == "DeclRefExpr":
+                sites.setdefault((tgt.get("referencedDecl") or {}).get("name"), []).append((op, x.get("id") in top_ids))
+        mods = {}
+        for name, ss in sites.items():
+            ops = {o for o, _ in ss}
+            direction = None
+            if ops <= {"++"}:
+                direction = "up"
+            elif ops <= {"--"}:
+                direction = "down"
+            elif len(ss) == 1 and ss[0][1] and name in step:
+                dl = step[name] - Lin({name: 1})
+                if not (set(dl) - {""}):
+                    c = dl.const()
+                    direction = "up" if c > 0 else ("down" if c < 0 else None)
+                else:
+                    # v = w + c with w the result of a find that started at v
+                    st_ = step[name]
+                    ws = [k_ for k_ in st_ if k_ != ""]
+                    if len(ws) == 1 and st_[ws[0]] == 1 and find_from.get(ws[0].rstrip("'")) == name and st_.const() >= 0:
+                        direction = "up"
+            mods[name] = {"dir": direction, "exact": len(ss) == 1 and ss[0][1] and name in step}
+        sums, diffs = [], []
+        names = sorted(n_ for n_, i_ in mods.items() if i_["exact"])
+        for i, a in enumerate(names):
+            for b in names[i + 1:]:
+                if (step[a] + step[b] - Lin({a: 1}) - Lin({b: 1})) == Lin():
+                    sums.append((a, b))
+                if (step[a] - step[b] - Lin({a: 1}) + Lin({b: 1})) == Lin():
+                    diffs.append((a, b))
+        # candidate bounds from the loop condition: `v != B`, `v < B`, `v <= B` (and the mirrored forms) with B not changed by the loop
+        bounds = []
+        if cond is not None:
+            atoms = []
+
+            def split(t):
+                while t[0] == "cast":
+                    t = t[3]
+                if t[0] == "bin" and t[1] == "&&":
+                    split(t[2])
+                    split(t[3])
+                else:
+                    atoms.append(t)
+            split(ir.sx(cond))
+            for t in atoms:
+                if t[0] != "bin" or t[1] not in ("!=", "<", "<=", ">", ">="):
+                    continue
+                for v_, b_, op_ in ((t[2], t[3], t[1]), (t[3], t[2], {"<": ">", ">": "<", "<=": ">=", ">=": "<=", "!=": "!="}[t[1]])):
+                    while v_[0] == "cast":
+                        v_ = v_[3]
+                    if v_[0] == "ref" and v_[1] in mods and not any(x_[0] == "ref" and x_[1] in mods for x_ in ir.subterms(b_)):
+                        if op_ in ("<", "<=") or (op_ == "!=" and mods[v_[1]]["dir"] == "up"):
+                            bounds.append((v_[1], b_, "ub"))
+                        elif op_ in (">", ">=") or (op_ == "!=" and mods[v_[1]]["dir"] == "down"):
+                            bounds.append((v_[1], b_, "lb"))
+        out.append({"id": loop.get("id"), "ids": ids, "mods": mods, "sums": sums, "diffs": diffs, "bounds": bounds, "kind": loop.get("kind")})
+    return out
+
+
 # ---------------------------------------------------------------------------------------------------------------------
 # C02.extent - every character write lies inside the object's own buffer
 def rule_extent(rep, S, cap, mode="write", R="C02.extent"):
@@ -507,10 +614,47 @@ def rule_extent(rep, S, cap, mode="write", R="C02.extent"):
         if mode == "write" and not any(fs.write_event(st[1], fn, bl) for path in paths for st in path if st[0] == "ev"):
             continue
         results = {}
-        for path in paths:
-            # each std::min on the path is split into its two cases
-            mins = [st[1] for st in path if st[0] == "ev" and st[1].get("kind") == "CallExpr" and (ir.strip(ir.ekids(st[1])[0]).get("referencedDecl") or {}).get("name") == "min"]
-            for choice in itertools.product((0, 1), repeat=min(len(mins), 4)):
+        _cfm = []
+
+        def called_from_members():
+            if not _cfm:
+                _cfm.append(any(fs.this_member_call(x_) is not None and fs.member_target(d, x_) is fn
+                                for g_ in S.fns if g_ is not fn for x_ in ir.walk_expr(g_)))
+            return _cfm[0]
+        loops = loop_table(fn)
+        vtypes = {v.get("name"): ir.qtype(v) for v in ir.walk_expr(fn) if v.get("kind") == "VarDecl"}
+        vtypes.update({p_.get("name"): ir.qtype(p_) for p_ in params})
+        acc_ = fs.member_access(S.cls)
+        bl = set(bl)
+        for g_ in S.fns:
+            if g_ is not fn and ir.has_body(g_) and acc_.get(g_.get("id"), "public") != "public":
+                loops += loop_table(g_)            # the loops of the non-public helpers that may be followed from here
+                bl |= fs.buffer_locals(g_)
+                for v in ir.walk_expr(g_):
+                    if v.get("kind") == "VarDecl":
+                        vtypes.setdefault(v.get("name"), ir.qtype(v))
+
+        def variants():
+            for path_ in paths:
+                # each std::min on the path is split into its two cases
+                mins = [st[1] for st in path_ if st[0] == "ev" and st[1].get("kind") == "CallExpr" and (ir.strip(ir.ekids(st[1])[0]).get("referencedDecl") or {}).get("name") == "min"]
+                for choice_ in itertools.product((0, 1), repeat=min(len(mins), 4)):
+                    yield path_, choice_
+        # candidate loop invariants `v >= 0` are assumed at the loop head and must be re-established at every back edge; a candidate that
+        # is not is dropped and the function is analysed again without it (induction, to a fixpoint)
+        inv_drop = set()
+        for _round in range(6):
+            results = {}
+            inv_failed = set()
+            pending = [(p_, c_, ()) for p_, c_ in variants()]
+            n_variants = 0
+            while pending:
+                path, choice, hsel = pending.pop()
+                n_variants += 1
+                if n_variants > 4000:
+                    results[("cap", 0)] = [fn, "unknown", "more than 4000 path variants through the helpers of this member"]
+                    break
+                picks = []
                 min_i = [0]
                 env = {}
                 facts = [Lin({"N": 1, "S": -1})]                       # size() <= N on entry
@@ -586,6 +730,13 @@ def rule_extent(rep, S, cap, mode="write", R="C02.extent"):
                             key = "len:" + ir.show(t)[:40]
                             nonneg.add(key)
                             return Lin({key: 1})
+                    if t[0] == "un" and t[1] in ("++", "--", "post++", "post--"):
+                        a = val(t[2])
+                        if a is None or t[1] in ("++", "--"):
+                            return a
+                        return a + Lin({"": 1 if t[1] == "post--" else -1})
+                    if t[0] == "bin" and t[1] == "=" and t[2][0] == "ref":
+                        return val(t[2])
                     if t[0] == "bin" and t[1] in ("+", "-"):
                         # pointer difference pos - cbegin()
                         pa, pb = off(t[2]), off(t[3])
@@ -603,6 +754,8 @@ def rule_extent(rep, S, cap, mode="write", R="C02.extent"):
                         return off(t[3])
                     if t[0] == "construct" and len(t) == 3:
                         return off(t[2])
+                    if t[0] == "call" and ("ptr", t) in call_vals:
+                        return call_vals[("ptr", t)]          # the pointer a followed helper returned
                     if t[0] == "call" and t[1][0] == "mem" and t[1][1] == ("this",) and len(t) == 2:
                         if t[1][2] in ("data", "c_str", "begin", "cbegin"):
                             return Lin()
@@ -626,11 +779,18 @@ def rule_extent(rep, S, cap, mode="write", R="C02.extent"):
                         facts.append(o - m)
                         return m
                     if t[0] == "ref":
-                        if t[1] in it_params:
-                            return Lin({"it:" + t[1]: 1})
                         if ("ptr", t[1]) in env:
                             return env[("ptr", t[1])]
+                        if t[1] in it_params:
+                            return Lin({"it:" + t[1]: 1})
                         return None
+                    if t[0] == "un" and t[1] in ("++", "--", "post++", "post--"):
+                        a = off(t[2])
+                        if a is None or t[1] in ("++", "--"):
+                            return a
+                        return a + Lin({"": 1 if t[1] == "post--" else -1})
+                    if t[0] == "bin" and t[1] == "=" and t[2][0] == "ref":
+                        return off(t[2])
                     if t[0] == "bin" and t[1] in ("+", "-"):
                         p_ = off(t[2])
                         if p_ is not None:
@@ -646,13 +806,149 @@ def rule_extent(rep, S, cap, mode="write", R="C02.extent"):
                     return None
 
                 def add_cond(t, truth):
+                    while t[0] == "cast":
+                        t = t[3]
+                    if t[0] == "un" and t[1] == "!":
+                        return add_cond(t[2], not truth)
                     if t[0] == "bin" and t[1] in linear.NEG:
                         op = t[1] if truth else linear.NEG[t[1]]
+                        # the pointer a traits find returned, compared with null
+                        for x_, y_ in ((t[2], t[3]), (t[3], t[2])):
+                            while x_[0] == "cast":
+                                x_ = x_[3]
+                            while y_[0] == "cast":
+                                y_ = y_[3]
+                            if x_[0] == "bin" and x_[1] == "=":
+                                x_ = x_[2]
+                            if x_[0] == "ref" and x_[1] in pending_find and y_ in (("lit", "0"), ("lit", "nullptr"), ("lit", 0)):
+                                if op == "!=":
+                                    found_nonnull(x_[1])
+                                return
                         a, b = val(t[2]), val(t[3])
                         if a is None or b is None:
                             a, b = off(t[2]), off(t[3])
                         if a is not None and b is not None:
                             facts.extend(linear.atom_facts(op, a, b))
+                            if op == "!=":
+                                # different, and ordered one way by what is known: strictly ordered
+                                ge_, le_ = linear.entails(facts, a - b, tuple(nonneg)), linear.entails(facts, b - a, tuple(nonneg))
+                                if ge_ and le_:
+                                    infeasible[0] = True          # known to be equal: this branch is not taken
+                                elif ge_:
+                                    facts.append(a - b - Lin({"": 1}))
+                                elif le_:
+                                    facts.append(b - a - Lin({"": 1}))
+                    elif t[0] == "ref" and t[1] in pending_find and truth:
+                        found_nonnull(t[1])
+
+                def found_nonnull(name):
+                    o_, n_ = pending_find.pop(name)
+                    h_ = sym("hit")
+                    nonneg.discard(h_)
+                    env[("ptr", name)] = Lin({h_: 1})
+                    facts.append(Lin({h_: 1}) - o_)                          # the hit lies in [p, p + n)
+                    facts.append(o_ + n_ - Lin({"": 1}) - Lin({h_: 1}))
+
+                def is_find(t):
+                    """traits find(p, n, ch) over a range of the own buffer -> (offset of p, n) else None"""
+                    while t[0] == "cast":
+                        t = t[3]
+                    if t[0] == "call" and t[1][0] == "ref" and t[1][1] == "find" and len(t) == 5:
+                        o_, n_ = off(t[2]), val(t[3])
+                        if o_ is not None and n_ is not None:
+                            return o_, n_
+                    return None
+
+                def assign_local(name, rhs_t, op):
+                    """effect of `name op rhs` / ++name / --name on the bindings"""
+                    isptr = ("ptr", name) in env or "*" in vtypes.get(name, "") or "pointer" in vtypes.get(name, "")
+                    key = ("ptr", name) if isptr else name
+                    pending_find.pop(name, None)
+                    if op in ("++", "--"):
+                        cur = off(("ref", name)) if isptr else val(("ref", name))
+                        if cur is not None:
+                            env[key] = cur + Lin({"": 1 if op == "++" else -1})
+                        return
+                    cur = off(("ref", name)) if isptr else val(("ref", name))
+                    if op == "=":
+                        fnd = is_find(rhs_t) if isptr else None
+                        if fnd is not None:
+                            pending_find[name] = fnd
+                            env.pop(key, None)
+                            return
+                        new_ = off(rhs_t) if isptr else val(rhs_t)
+                    else:
+                        dlt = val(rhs_t)
+                        new_ = None if cur is None or dlt is None else (cur + dlt if op == "+=" else cur - dlt)
+                    if new_ is None:
+                        env.pop(key, None)
+                        if not isptr and name in uint_params:
+                            env[name] = Lin({sym("v"): 1})       # a parameter that was overwritten no longer stands for the caller's value
+                    else:
+                        env[key] = new_
+
+                def enter_loop(L):
+                    """variables that change in the loop stand for their value at the head of an arbitrary iteration: a fresh symbol,
+                    ordered against the initial value when the variable only moves one way, tied to the others by the sums one iteration
+                    leaves unchanged, and not below zero when that is re-established at every back edge"""
+                    syms = {}
+                    for name, info in L["mods"].items():
+                        isptr = ("ptr", name) in env
+                        key = ("ptr", name) if isptr else name
+                        if key not in env:
+                            if not isptr and name in uint_params:
+                                env[name] = Lin({"p:" + name: 1})
+                            else:
+                                continue
+                        init = env[key]
+                        s_ = sym("loop:" + name)
+                        unsigned = not isptr and ("unsigned" in vtypes.get(name, "") or "size_t" in vtypes.get(name, "") or name in uint_params)
+                        if not unsigned:
+                            nonneg.discard(s_)
+                        syms[name] = (s_, init, key)
+                        if info["dir"] == "down":
+                            facts.append(init - Lin({s_: 1}))
+                        elif info["dir"] == "up":
+                            facts.append(Lin({s_: 1}) - init)
+                        if not unsigned and (L["id"], name) not in inv_drop and linear.entails(facts, init, tuple(nonneg)):
+                            facts.append(Lin({s_: 1}))
+                            L_assumed.setdefault(L["id"], []).append((name, key))
+                    for (a_, b_) in L["sums"]:
+                        if a_ in syms and b_ in syms:
+                            tot = Lin({syms[a_][0]: 1, syms[b_][0]: 1}) - syms[a_][1] - syms[b_][1]
+                            facts.append(tot)
+                            facts.append(-tot)
+                    for (a_, b_) in L["diffs"]:
+                        if a_ in syms and b_ in syms:
+                            tot = Lin({syms[a_][0]: 1}) - Lin({syms[b_][0]: 1}) - syms[a_][1] + syms[b_][1]
+                            facts.append(tot)
+                            facts.append(-tot)
+                    for (v_, bt_, kind_) in L["bounds"]:
+                        if v_ not in syms or (L["id"], v_, kind_) in inv_drop:
+                            continue
+                        bl_ = off(bt_) if syms[v_][2] != v_ else val(bt_)
+                        if bl_ is None:
+                            continue
+                        gap_ = (bl_ - syms[v_][1]) if kind_ == "ub" else (syms[v_][1] - bl_)
+                        if linear.entails(facts, gap_, tuple(nonneg)):
+                            # holds on entry: assumed at the head, to be re-established at the back edge
+                            facts.append((bl_ - Lin({syms[v_][0]: 1})) if kind_ == "ub" else (Lin({syms[v_][0]: 1}) - bl_))
+                            L_bounds.setdefault(L["id"], []).append((v_, syms[v_][2], bl_, kind_))
+                    for name, (s_, init, key) in syms.items():
+                        env[key] = Lin({s_: 1})
+
+                def back_edge(L):
+                    for name, key in L_assumed.get(L["id"], []):
+                        cur = env.get(key)
+                        if cur is None or not linear.entails(facts, cur, tuple(nonneg)):
+                            inv_failed.add((L["id"], name))
+                    for name, key, bl_, kind_ in L_bounds.get(L["id"], []):
+                        cur = env.get(key)
+                        if cur is None or not linear.entails(facts, (bl_ - cur) if kind_ == "ub" else (cur - bl_), tuple(nonneg)):
+                            import os
+                            if os.environ.get("C02_DEBUG"):
+                                print("DBGB", lab, name, kind_, "cur", cur.show() if cur is not None else None, "bound", bl_.show(), "facts", [f_.show() for f_ in facts])
+                            inv_failed.add((L["id"], name, kind_))
 
                 access = fs.member_access(S.cls)
                 call_vals = {}
@@ -660,8 +956,23 @@ def rule_extent(rep, S, cap, mode="write", R="C02.extent"):
                 tainted = [False]
                 work = list(path)
                 depth_guard = [0]
+                pending_find = {}
+                L_assumed = {}
+                L_bounds = {}
+                infeasible = [False]
+                entered = {}
                 while work:
                     st = work.pop(0)
+                    if st[0] in ("cond", "ev", "decl") and isinstance(st[1], dict):
+                        nid_ = st[1].get("id")
+                        for L in loops:
+                            if nid_ in L["ids"]:
+                                if L["id"] not in entered:
+                                    entered[L["id"]] = nid_
+                                    enter_loop(L)
+                                elif entered[L["id"]] == nid_:
+                                    entered[L["id"]] = None          # later arrivals are not enumerated by the unrolling
+                                    back_edge(L)
                     if st[0] == "leave":
                         # restore the caller's bindings and record the helper's return value
                         saved, call_t, ret_node = st[1], st[2], st[3]
@@ -684,6 +995,10 @@ def rule_extent(rep, S, cap, mode="write", R="C02.extent"):
                     if st[0] == "cond":
                         add_cond(ir.sx(st[1]), st[2])
                         cond_truth[ir.sx(st[1])] = st[2]
+                        if not infeasible[0] and len(facts) <= 12 and linear.entails(facts, Lin({"": -1}), tuple(nonneg)):
+                            infeasible[0] = True
+                        if infeasible[0]:
+                            break              # the conditions of this path contradict each other: nothing on it happens
                         continue
                     if st[0] == "decl":
                         v = st[1]
@@ -691,9 +1006,16 @@ def rule_extent(rep, S, cap, mode="write", R="C02.extent"):
                         if not init:
                             continue
                         t = ir.sx(init[-1])
+                        env.pop(v.get("name"), None)
+                        env.pop(("ptr", v.get("name")), None)
+                        pending_find.pop(v.get("name"), None)
                         x = val(t) if "*" not in ir.qtype(v) else None
                         if x is not None and "*" not in ir.qtype(v):
                             env[v.get("name")] = x
+                            continue
+                        fnd = is_find(t)
+                        if fnd is not None:
+                            pending_find[v.get("name")] = fnd
                             continue
                         p_ = off(t)
                         if p_ is not None:
@@ -704,6 +1026,17 @@ def rule_extent(rep, S, cap, mode="write", R="C02.extent"):
                     n = st[1]
                     tm = fs.this_member_call(n)
                     t = ir.sx(n)
+                    if n.get("kind") == "UnaryOperator" and n.get("opcode") in ("++", "--") and t[2][0] == "ref":
+                        assign_local(t[2][1], None, n.get("opcode"))
+                        continue
+                    if n.get("kind") in ("BinaryOperator", "CompoundAssignOperator") and n.get("opcode") in ("=", "+=", "-=") and t[0] == "bin" and t[2][0] == "ref":
+                        assign_local(t[2][1], t[3], n.get("opcode"))
+                        continue
+                    if n.get("kind") in ("BinaryOperator", "CompoundAssignOperator") and (n.get("opcode") or "").endswith("=") and \
+                            n.get("opcode") not in ("==", "!=", "<=", ">=") and t[0] == "bin" and t[2][0] == "ref":
+                        env.pop(t[2][1], None)
+                        env.pop(("ptr", t[2][1]), None)
+                        continue
                     if tm is not None and tm not in ("check_index", "check_index_strict", "compare_impl", "data", "c_str", "begin", "end", "cbegin", "cend", "size", "length"):
                         tgt = fs.member_target(d, n)
                         if tgt is not None and ir.has_body(tgt) and access.get(tgt.get("id"), "public") != "public" and depth_guard[0] < 6:
@@ -711,25 +1044,44 @@ def rule_extent(rep, S, cap, mode="write", R="C02.extent"):
                                 cps = flow.function_paths(tgt, with_ctor_inits=False)
                             except cj.AnalysisBroken:
                                 cps = []
-                            if len(cps) != 1:
-                                tainted[0] = True       # a branching helper: its facts are not followed
+                            if not cps:
+                                tainted[0] = True
                                 continue
+                            # a helper with several paths: this run follows one of them, the others are scheduled as further variants
+                            k_ = len(picks)
+                            if k_ < len(hsel):
+                                pick = hsel[k_]
+                            else:
+                                pick = 0
+                                for j_ in range(1, len(cps)):
+                                    pending.append((path, choice, tuple(picks) + (j_,)))
+                            picks.append(pick)
                             depth_guard[0] += 1
                             saved = {}
+                            isptr_ = lambda q_: "*" in q_ or "pointer" in q_ or "iterator" in q_
                             for prm, arg in zip(ir.params(tgt), ir.ekids(n)[1:]):
                                 ta = ir.sx(arg)
                                 nm_ = prm.get("name")
-                                pv = val(ta)
-                                if pv is not None and "*" not in ir.qtype(prm):
+                                vtypes.setdefault(nm_, ir.qtype(prm))
+                                if not isptr_(ir.qtype(prm)):
+                                    pv = val(ta)
                                     saved[nm_] = env.get(nm_)
-                                    env[nm_] = pv
+                                    # an argument that is not followed still hides a caller's variable of the same name
+                                    env[nm_] = pv if pv is not None else Lin({sym("arg:" + nm_): 1})
+                                    if pv is None and "unsigned" not in ir.qtype(prm) and "size_t" not in ir.qtype(prm):
+                                        nonneg.discard(list(env[nm_])[0])
                                 else:
                                     pp = off(ta)
                                     saved[("ptr", nm_)] = env.get(("ptr", nm_))
+                                    env.pop(("ptr", nm_), None)
                                     if pp is not None:
                                         env[("ptr", nm_)] = pp
-                            callee_steps = cps[0]
-                            ret = callee_steps[-1][1] if callee_steps and callee_steps[-1][0] == "return" else None
+                            callee_steps = cps[pick]
+                            last_ = callee_steps[-1] if callee_steps else ("end",)
+                            if last_[0] not in ("return", "end"):
+                                work = list(callee_steps)          # the helper leaves by an exception on this path: nothing of the caller follows
+                                continue
+                            ret = last_[1] if last_[0] == "return" else None
                             work = [x for x in callee_steps if x[0] not in ("return", "end")] + [("leave", saved, t, ret)] + work
                             continue
                     if tm == "check_index_strict":
@@ -852,10 +1204,20 @@ def rule_extent(rep, S, cap, mode="write", R="C02.extent"):
                             results[key] = [n, "ok", "[%s, %s) within [0, N]" % (start.show(), end.show())]
                     else:
                         what = "starts at data()+(%s), which is not provably >= 0" % start.show() if not ok_lo else "ends at data()+(%s), which is not provably <= N" % end.show()
-                        if tainted[0] or access.get(fn.get("id"), "public") != "public":
+                        if access.get(fn.get("id"), "public") != "public" and called_from_members():
+                            if prev is None or prev[1] == "ok":
+                                results[key] = [n, "skip", "non-public helper: the write is decided at each of its call sites, with the caller's checks"]
+                        elif any(str(k_).startswith("loop:") for k_ in list(start) + list(end)):
+                            if prev is None or prev[1] == "ok":
+                                results[key] = [n, "unknown", "the write %s for an arbitrary iteration of the loop from the invariants found (monotone variables, unchanged sums and "
+                                                              "differences, bounds of the loop condition)" % what]
+                        elif tainted[0] or access.get(fn.get("id"), "public") != "public":
                             results[key] = [n, "unknown", "the write %s here; the missing facts may be established in a helper / by the callers of this helper" % what]
                         else:
                             results[key] = [n, "bad", "the write %s from the checks on this path (%d facts): a write past the object's own N+1 characters disturbs adjacent memory" % (what, len(facts))]
+            if inv_failed <= inv_drop:
+                break
+            inv_drop |= inv_failed
         for n, verdict, det in results.values():
             cons = "`%s`" % d.text(n)[:70].replace("\n", " ")
             if verdict == "ok":
